@@ -55,6 +55,14 @@ static void write_stats(void) {
   }
 }
 
+// The stack below the point where the simulator wakes up is filled with the same seeded junk as fresh heap memory, so an
+// automatic variable that is read before it is written does not find the zeroes a fresh process happens to provide.
+static void __attribute__((noinline)) dirty_stack(unsigned char fill) {
+  volatile unsigned char buf[1 << 20];
+  memset((void *)buf, fill, sizeof buf);
+  __asm__ volatile("" ::"r"(buf) : "memory");
+}
+
 static void decide(void) {
   const char *s = getenv("ENVSIM_SEED");
   const char *nm = program_invocation_short_name;
@@ -81,6 +89,7 @@ static void decide(void) {
     fake_pid = atoi(getenv("ENVSIM_PID"));
   }
   state = 1;
+  dirty_stack(junk);
   atexit(write_stats);
 }
 
